@@ -852,6 +852,9 @@ impl<'a> IrEmitter<'a> {
 
         let tokio_main_attr = if is_main && func.is_async && self.needs_tokio {
             quote! { #[tokio::main] }
+        } else if self.test_function.as_deref() == Some(func.name.as_str()) {
+            // `incan test` compiles the file with `cargo test`: without the attribute no test would run at all.
+            quote! { #[test] }
         } else {
             quote! {}
         };
